@@ -22,7 +22,7 @@ CLAIMED = {
  "C15": ("tlc-pipe", "TLC: OnceInit.tla (all interleavings of first use; safety for any number of threads by TLAPS, OnceInitProof.tla) + trace validation of Pipeline.BuildDeterministic over K independent processes, generated parser / lexer / token-map modules (token maps predicted exactly by TokenMap.tla), and 8-thread first use of compiled generated parsers", "5 C15"),
  "C16": ("tlc-trace", "TLC evaluation of view / graph consistency on every state x token x rule of the dumped graph and table", "5 C16"),
  "C17": ("tlc-trace", "TLC comparison of FIRST / FOLLOW / nullable / path / cost queries with declarative least fixed points; rule_min_costs transcribed to characterise non-termination", "5 C17"),
- "C18": ("tlc-ctbuild", "TLC bounded model of CTBuild.tla (all histories to a depth) + trace validation of build histories run on the real builders, one process per build, against clean builds", "5 C18"),
+ "C18": ("tlc-ctbuild", "TLC bounded model of CTBuild.tla (all histories to a depth; the parser builder's part for histories of any length by TLAPS, CTBuildProof.tla) + trace validation of build histories run on the real builders, one process per build, against clean builds", "5 C18"),
  "C19": ("tlc-nlc", "TLC bounded model of NewlineCache.tla + Diagnostics.tla (all texts x chunkings x queries x spans; the rendering loop as coded = the rendering defined on the line structure) + trace validation of the real cache, lexers and diagnostics formatter (every span rendered) over the same exhaustive family and random texts", "5 C19"),
  "C20": ("tlc-width", "TLC bounded model of the width guards (Width.tla) + trace validation of u8/u16/u32 builds of grammars sitting in the 2^8 / 2^16 windows; the guard lemma for all natural counts by Apalache (WidthApa.tla, length 0) and as a TLAPS theorem (WidthProof.tla)", "5 C20"),
 }
